@@ -178,7 +178,7 @@ func (e *Env) trIdent(name string) (Term, Ty) {
 	if b, ok := e.vars[name]; ok {
 		return b.T, b.Ty
 	}
-	if name == "$i" && e.resolve != nil {
+	if (name == "$i" || strings.HasPrefix(name, "$r")) && e.resolve != nil {
 		if t, ty, ok := e.resolve(name); ok {
 			return t, ty
 		}
@@ -567,10 +567,22 @@ func (e *Env) trQuant(x *EQuant) (Term, Ty) {
 		nm := "q_" + clean(v.Name)
 		decls = append(decls, "("+nm+" "+s+")")
 		sub = sub.with(v.Name, Binding{Term{nm, s}, ty})
-		if s == SInt && len(x.Trig) == 0 {
+		var trigSlice Expr
+		if len(x.Trig) == 1 && len(x.Trig[0]) == 1 {
+			if ix, ok := x.Trig[0][0].(*EIndex); ok {
+				if id, ok := ix.I.(*EIdent); ok && id.Name == v.Name {
+					trigSlice = ix.X
+				}
+			}
+		}
+		if s == SInt && (len(x.Trig) == 0 || trigSlice != nil) {
 			// re-index: if v is used as the direct index of exactly one slice expression, quantify over the
 			// absolute index of its backing array so that the trigger is arithmetic-free
-			if sl := soleIndexedSlice(x.Body, v.Name); sl != nil && !mentions(sl, boundNames(x)) {
+			sl := trigSlice
+			if sl == nil {
+				sl = soleIndexedSlice(x.Body, v.Name)
+			}
+			if sl != nil && !mentions(sl, boundNames(x)) {
 				if st, sty := sub.tr(sl); st.Sort == SSlice && sty.G != nil {
 					n2 := *sub
 					n2.reidx = map[string]reidxInfo{}
@@ -592,6 +604,9 @@ func (e *Env) trQuant(x *EQuant) (Term, Ty) {
 	body := sub.trBool(x.Body)
 	pat := ""
 	for _, ts := range x.Trig {
+		if len(autoPats) > 0 {
+			break // the trigger named the slice to re-index over
+		}
 		var ps []string
 		for _, t := range ts {
 			tt, _ := sub.tr(t)
